@@ -146,6 +146,12 @@ pub fn relate_case(cx: &mut Ctx, n: u64, case: &Value) {
         chk(cx, "C01", "relate_geometry_enum", case, "Geometry(a).relate(Geometry(b))".into(), relate_gg(&a, &b), &im);
         chk(cx, "C01", "relate_geometry_enum", case, "a.relate(Geometry(b))".into(), relate_cg(&a, &b), &im);
         chk(cx, "C01", "relate_geometry_enum", case, "Geometry(a).relate(b)".into(), relate_gc(&a, &b), &im);
+        // the same operands with f32 coordinates (lattice coordinates are exact in f32)
+        {
+            use geo::MapCoords;
+            let (fa, fb) = (a.geometry().map_coords(|c| geo::Coord { x: c.x as f32, y: c.y as f32 }), b.geometry().map_coords(|c| geo::Coord { x: c.x as f32, y: c.y as f32 }));
+            chk(cx, "C01", "relate_f32", case, "Geometry<f32>(a).relate(b)".into(), guard(|| im_string(&fa.relate(&fb))), &im);
+        }
         for (name, va) in a.variants() {
             chk(cx, "C01", "relate_variant", case, format!("variant {name} of a"), relate_cc(&va, &b), &im);
         }
@@ -194,6 +200,17 @@ pub fn relate_case(cx: &mut Ctx, n: u64, case: &Value) {
             chkb(cx, "C02", "contains_geometry_enum", case, "Geometry(a).contains(b)".into(), contains_gc(&a, &b), ct);
             if let Some(r) = contains_cg(&a, &b) {
                 chkb(cx, "C02", "contains_geometry_enum", case, "a.contains(Geometry(b))".into(), r, ct);
+            }
+            {
+                // other scalar types: f32 (all three predicates) and i64 (intersects is implemented for every GeoNum)
+                use geo::MapCoords;
+                let (fa, fb) = (a.geometry().map_coords(|c| geo::Coord { x: c.x as f32, y: c.y as f32 }), b.geometry().map_coords(|c| geo::Coord { x: c.x as f32, y: c.y as f32 }));
+                chkb(cx, "C02", "intersects_f32", case, "Geometry<f32>(a).intersects(b)".into(), guard(|| fa.intersects(&fb)), ix);
+                chkb(cx, "C02", "contains_f32", case, "Geometry<f32>(a).contains(b)".into(), guard(|| fa.contains(&fb)), ct);
+                chkb(cx, "C02", "within_f32", case, "Geometry<f32>(a).is_within(b)".into(), guard(|| fa.is_within(&fb)), wi);
+                let (ia, ib) = (a.geometry().map_coords(|c| geo::Coord { x: c.x as i64, y: c.y as i64 }), b.geometry().map_coords(|c| geo::Coord { x: c.x as i64, y: c.y as i64 }));
+                chkb(cx, "C02", "intersects_i64", case, "Geometry<i64>(a).intersects(b)".into(), guard(|| ia.intersects(&ib)), ix);
+                chkb(cx, "C02", "intersects_i64", case, "Geometry<i64>(b).intersects(a)".into(), guard(|| ib.intersects(&ia)), ix);
             }
             chkb(cx, "C02", "within", case, "a.is_within(b)".into(), within_cc(&a, &b), wi);
             chkb(cx, "C02", "within_is_contains_swapped", case, "b.contains(a)".into(), contains_cc(&b, &a), wi);
@@ -304,6 +321,19 @@ fn coordpos_point(cx: &mut Ctx, n: u64, g: &G, gjson: &Value, x: i64, y: i64, wa
         chkb(cx, prop, "intersects_coord", &sub_case, "g.intersects(c)".into(), guard(|| with_g!(g, z => z.intersects(&c))), want != "E");
         chkb(cx, prop, "intersects_coord", &sub_case, "Geometry(g).intersects(c)".into(), guard(|| gg.intersects(&c)), want != "E");
         chkb(cx, prop, "contains_coord", &sub_case, "Geometry(g).contains(c)".into(), guard(|| gg.contains(&c)), want == "I");
+        // other scalar types (lattice coordinates are exact in both)
+        {
+            use geo::MapCoords;
+            let gi = gg.map_coords(|c| geo::Coord { x: c.x as i64, y: c.y as i64 });
+            let ci = geo::Coord { x, y };
+            let got = guard(|| pos_char(gi.coordinate_position(&ci)));
+            chk(cx, prop, "coordinate_position_i64", &sub_case, "Geometry<i64>(g).coordinate_position(c)".into(), got.map(|s| s.to_string()), want);
+            chkb(cx, prop, "intersects_coord_i64", &sub_case, "Geometry<i64>(g).intersects(c)".into(), guard(|| gi.intersects(&ci)), want != "E");
+            let gf = gg.map_coords(|c| geo::Coord { x: c.x as f32, y: c.y as f32 });
+            let cf = geo::Coord { x: x as f32, y: y as f32 };
+            let got = guard(|| pos_char(gf.coordinate_position(&cf)));
+            chk(cx, prop, "coordinate_position_f32", &sub_case, "Geometry<f32>(g).coordinate_position(c)".into(), got.map(|s| s.to_string()), want);
+        }
     }
     let tg = m.on(g);
     let tc = m.apply(c);
